@@ -50,7 +50,8 @@ func FetchRecord(ctx context.Context, r Resolver, fromDomain string) (policyDoma
 	}
 	if len(txts) == 0 {
 		// No records or 'no such host', try orgDomain.
-		orgDomain, err := publicsuffix.EffectiveTLDPlusOne(fromDomain)
+		// The public suffix list is case-sensitive.
+		orgDomain, err := publicsuffix.EffectiveTLDPlusOne(strings.ToLower(fromDomain))
 		if err != nil {
 			return "", nil, err
 		}
@@ -206,6 +207,12 @@ func isAligned(fromDomain, authDomain string, mode AlignmentMode) bool {
 	if mode == dmarc.AlignmentStrict {
 		return strings.EqualFold(fromDomain, authDomain)
 	}
+
+	// The public suffix list is case-sensitive: written in upper case, any two
+	// names under a multi-label suffix (co.uk) have the same "organizational
+	// domain" (CO.UK).
+	fromDomain = strings.ToLower(fromDomain)
+	authDomain = strings.ToLower(authDomain)
 
 	tld, _ := publicsuffix.PublicSuffix(fromDomain)
 	if strings.EqualFold(fromDomain, tld) {
